@@ -239,13 +239,18 @@ class TU:
         return q
     def find_record(self, qual):
         best = None
+        base = qual.split('<')[0]
+        targs = [a.replace(' ', '') for a in split_top(qual[len(base) + 1:qual.rfind('>')])] if '<' in qual else None
         for nid, n in self.index.items():
-            if n.get('kind') in ('CXXRecordDecl', 'ClassTemplateSpecializationDecl') and n.get('name') == qual.split('::')[-1].split('<')[0] \
+            if n.get('kind') in ('CXXRecordDecl', 'ClassTemplateSpecializationDecl') and n.get('name') == base.split('::')[-1] \
                and n.get('completeDefinition'):
                 q = self.qualname(n)
-                if q == qual.split('<')[0] or q == 'Pomerol::' + qual.split('<')[0]:
-                    if n.get('kind') == 'ClassTemplateSpecializationDecl' and '<' in qual:
-                        pass
+                if q == base or q == 'Pomerol::' + base:
+                    if targs is not None:
+                        # `Cls<Args>`: the compiler's instantiation with exactly these template arguments
+                        if n.get('kind') != 'ClassTemplateSpecializationDecl': continue
+                        have = [c.get('type', {}).get('qualType', c.get('value', '')).replace(' ', '') for c in n.get('inner', []) if c.get('kind') == 'TemplateArgument']
+                        if have != targs: continue
                     best = n
                     if any(c.get('kind') == 'FieldDecl' for c in n.get('inner', [])): return n
         if best is None: raise ExtractionBreak('record "%s" not found in %s' % (qual, self.path))
@@ -343,6 +348,13 @@ class Printer:
         if not q.endswith('&'): return 'value'
         inner = q.rstrip('&').strip()
         is_const = inner.startswith('const ') or inner.endswith(' const')
+        if q.endswith('&&') and not is_const:
+            # rvalue reference to a scalar / small value (move construction/assignment): the value itself
+            try:
+                c, k = self.tm.resolve(inner)
+                if k in ('scalar', 'val'): return 'value'
+            except ExtractionBreak:
+                pass
         if not is_const: return 'pointer'
         try:
             c, k = self.tm.resolve(inner)
@@ -843,6 +855,8 @@ class Printer:
         kind = fn['kind']
         params = []
         is_member = kind in ('CXXMethodDecl', 'CXXConstructorDecl', 'CXXConversionDecl', 'CXXDestructorDecl') and fn.get('storageClass') != 'static'
+        if is_member and self.tu.index.get(fn.get('previousDecl'), {}).get('storageClass') == 'static':
+            is_member = False      # out-of-class definition of a static member function: `static` is on the in-class declaration
         if is_member:
             rec = self.tu.record_of(fn)
             c, k = self.tm.lookup(self.tu.qualname(rec))
